@@ -612,7 +612,24 @@ v('C02', 'column-name-drops-outer', 'c02.column-name-complete', (P, '''	if outer
 		qualifier = fmt.Sprintf("%s.%s", outer, qualifier)
 	}
 ''', ''))
-v('C03', 'group-value-under-flat-name', 'c03.group-row-addressable', (P, 'SetPath(current, innerKey, innerValue)', 'current[innerKey] = innerValue'))
+v('C03', 'group-value-under-flat-name', 'c03.group-row-addressable', (P, '''			if err := SetPath(current, innerKey, innerValue); err != nil {
+				return nil, err
+			}
+''', '''			current[innerKey] = innerValue
+'''))
+v('C03', 'setpath-literal-on-quote', 'c03.group-row-addressable', (P, '''	selectors, err := ParseSelector(name)
+	if err != nil {
+		return err
+	}
+''', '''	selectors, err := ParseSelector(name)
+	if err != nil {
+		return err
+	}
+	if strings.ContainsAny(name, "'\\"`") {
+		row[name] = value
+		return nil
+	}
+'''))
 v('C04', 'derived-side-without-ident', 'c04.side-ident', (P, '''			// a join identifies its sides by this name
 			query.ident = as
 ''', ''))
